@@ -17,6 +17,12 @@ Read-only accessors (pure reads; the line shows what was read and a digest of th
   `mrecall a vocab struct` = `memory.recall(query)` from outside (touches the first hit).  `pflag a x` / `flag x`: the reason
   is `1` a non-empty string, `0` the empty string, `n` None, `z` the number 0, `l` an empty list, `o` an object, `s0` the
   string "0" (what counts is its truthiness).  `dclear a` = `displays[a].clear()`.
+Entry points with their defaults: `sysdef` = `ImmuneSystem()` (every component default-constructed), `sysw w m` assigns
+  `window_size` / `min_observations`, `rreg a` = `register_agent(a)` keeping the display it creates, `creg a` =
+  `IntegratedCell.register_agent(a)` (the cell's `surveillance` being this system), `cexec a text|brk|none|empty|fail
+  struct words len sdLen sdTime sdConf` = `IntegratedCell.execute(a, op, work)` with the wall clock frozen: a successful
+  operation records `(str(output) if output else "", 0.0, tag.confidence = 1.0)`, a failing one records nothing.
+  `obs` / `canary` for an agent that was never registered raise ValueError.
 Pipeline with the real display: `dreg a windowSize minObs`, `obs a text|brk|none|empty struct words len time conf err
   sdLen sdTime sdConf` (the three stdevs of the window after this observation), `canary a b`.
 -/
@@ -32,6 +38,9 @@ structure DSt where
   displays : List (Nat × Display × Sds) := []
   /-- keys of `ImmuneSystem.displays` in insertion order -/
   regs : List Nat := []
+  /-- `ImmuneSystem.window_size` / `min_observations`: what `register_agent` hands to the display it creates -/
+  winSize : Int := 100
+  minObs : Int := 10
 
 def natList (s : String) : List Nat :=
   if s = "-" then [] else (s.splitOn ",").map (natD ·)
@@ -141,6 +150,12 @@ def showHealth : Option HealthReport → String
   | some h => s!"ok h={h.registered}/{h.trained}/{h.stored}/{h.cap} " ++
       (if h.agents.isEmpty then "-" else ",".intercalate (h.agents.map fun x => s!"{x.1}:{showBool x.2.1}:{x.2.2}"))
 
+/-- `register_agent(a)`: a fresh `MHCDisplay(window_size, min_observations)` and a fresh tolerance record -/
+def realReg (st : DSt) (a : Nat) : DSt :=
+  { st with sys := st.sys.register a,
+            regs := if st.regs.contains a then st.regs else st.regs ++ [a],
+            displays := (a, ⟨st.winSize, st.minObs, [], []⟩, ⟨0, 0, 0⟩) :: st.displays.filter (·.1 != a) }
+
 def step (st : DSt) (toks : List String) : DSt × String :=
   match toks with
   | ["tcell", rep, an, a, b, c, d, e, f, em, vs, ss, cm] =>
@@ -190,7 +205,29 @@ def step (st : DSt) (toks : List String) : DSt × String :=
     | .positive pr => ({ st with tcell := some (TCell.fresh pr 3 5) }, "positive ## tr:positive")
   | "sys" :: mn :: tol :: vt :: stab :: cap :: rules =>
     ({ st with sys := Sys.init (intD mn) (ratOf tol) (ratOf vt) ⟨rules.map ruleOf, intD stab⟩ (intD cap),
-               displays := [], regs := [] }, "ok")
+               displays := [], regs := [], winSize := 100, minObs := 10 }, "ok")
+  | ["sysdef"] =>
+    -- `ImmuneSystem()`: min_training_samples 10, Thymus(tolerance 2, variance_threshold 0.5), RegulatoryTCell(no rules,
+    -- stability 100), ImmuneMemory(capacity 1000), window 100, min_observations 10
+    ({ st with sys := Sys.init 10 2 (1 / 2) ⟨[], 100⟩ 1000, displays := [], regs := [], winSize := 100, minObs := 10 },
+      "ok ## e:sysdef")
+  | ["sysw", w, m] => ({ st with winSize := intD w, minObs := intD m }, "ok")
+  | ["rreg", a] => (realReg st (natD a), "ok ## e:rreg")
+  | ["creg", a] => (realReg st (natD a), "ok ## e:creg")
+  | ["cexec", a, out, sk, ws, ln, sl, stt, sc] =>
+    match st.displays.find? (·.1 == natD a) with
+    | none => (st, if st.regs.contains (natD a) then "no-display"
+        else if out == "fail" then "failed unrecorded ## e:cexec-unregistered" else "ok unrecorded ## e:cexec-unregistered")
+    | some (_, d, _) =>
+      if out == "fail" then (st, s!"failed n={d.obs.length} ## e:cexec-failed")
+      else
+        let ob : Ob := ⟨out == "text" || out == "brk", natD ln, natList ws, natD sk, 0, 1, none⟩
+        let d' := d.record ob
+        let sd : Sds := ⟨ratOf sl, ratOf stt, ratOf sc⟩
+        ({ st with sys := st.sys.showPeptide (natD a) (d'.generate sd),
+                   displays := (natD a, d', sd) :: st.displays.filter (·.1 != natD a) },
+          s!"ok n={d'.obs.length} ## e:cexec" ++ (if (d'.generate sd).isSome then " d:peptide" else " d:short") ++
+            (if d'.obs.length ≤ d.obs.length then " d:evicted" else ""))
   | ["reg", a] =>
     ({ st with sys := st.sys.register (natD a), displays := st.displays.filter (·.1 != natD a),
                regs := if st.regs.contains (natD a) then st.regs else st.regs ++ [natD a] }, "ok")
@@ -200,7 +237,7 @@ def step (st : DSt) (toks : List String) : DSt × String :=
                displays := (natD a, ⟨intD ws, intD mo, [], []⟩, ⟨0, 0, 0⟩) :: st.displays.filter (·.1 != natD a) }, "ok")
   | ["obs", a, out, sk, ws, ln, tm, cf, er, sl, stt, sc] =>
     match st.displays.find? (·.1 == natD a) with
-    | none => (st, "no-display")
+    | none => (st, if st.regs.contains (natD a) then "no-display" else "raise:ValueError ## e:unregistered")
     | some (_, d, _) =>
       let ob : Ob := ⟨out == "text" || out == "brk", natD ln, natList ws, natD sk, ratOf tm, ratOf cf,
         if er == "-" || er == "empty" then none else some (natD er)⟩
@@ -212,7 +249,7 @@ def step (st : DSt) (toks : List String) : DSt × String :=
           (if d'.obs.length ≤ d.obs.length then " d:evicted" else ""))
   | ["canary", a, b] =>
     match st.displays.find? (·.1 == natD a) with
-    | none => (st, "no-display")
+    | none => (st, if st.regs.contains (natD a) then "no-display" else "raise:ValueError ## e:unregistered")
     | some (_, d, sd) =>
       let d' := d.recordCanary (boolOf b)
       ({ st with sys := st.sys.showPeptide (natD a) (d'.generate sd),
